@@ -244,8 +244,11 @@ package db
 //@   ensures err == nil ==> r0 != nil && r0.db == db
 //@   trusted-ensures [root] err == nil ==> tree_of(r0.root) == r0.root
 
+// objectNames: the names of ALL schema rows of the requested type, in schema order (step clause: a
+// row of that type adds its name, any other row adds nothing).
 //@ func (*db.Database).objectNames
-//@   props C08 C05
+//@   props C08 C05 C10
+//@   loop 1 step [filter] (streq(o.typ, typ) ==> len(names) == pre(len(names)) + 1 && names[pre(len(names))] == o.name) && (!streq(o.typ, typ) ==> len(names) == pre(len(names)))
 //@   modifies * -M:S_db_KeyCol -M:S_sqlittle_columnIndex hdr_valid hdr_ps hdr_cookie jr_pos peer_state
 //@   requires db != nil
 
